@@ -123,6 +123,7 @@ def content(variant, n):
         return bytes((0xFF - i) & 0xFF for i in range(n))
     return ("\u00e9\u4e2d" * n).encode("utf-8")[:n]        # multi-byte UTF-8, possibly cut in the middle of a character
 BIG_COUNTS = (10, 11, 12, 16, 17, 32, 33)
+HUGE_COUNTS = (1200, 4000)      # beyond the interpreter's default recursion depth, and beyond 16 / 64 KiB of list
 TIDS = [
     {"protocol_id": 0, "n_port_name": bytes(range(1, 9))},
     {"protocol_id": 3, "eui64_name": bytes(range(0x11, 0x19))},
@@ -565,8 +566,8 @@ def gen(part, tier):
                 if any(isinstance(v, (bytes, bytearray)) for v in DESIGNATORS[i][1].values()):
                     yield ["vpd83", [i], 0, cv]
             yield ["vpd83", [0, 1, 4, n - 2, n - 1], 2, cv]
-        for cnt in BIG_COUNTS[:5]:
-            yield ["vpd83", [(i * 5) % n for i in range(cnt)], 0]
+        for cnt in BIG_COUNTS[:5] + HUGE_COUNTS:
+            yield ["vpd83", [(i * 5) % n for i in range(cnt)] if cnt < 100 else [9] * cnt, 0]
         if k > 1:
             for t in itertools.permutations(range(0, n, 2), 3):
                 yield ["vpd83", list(t), 5]
@@ -599,7 +600,7 @@ def gen(part, tier):
         for n in range(0, 5):
             for tail in (0, 8, 16):
                 yield ["getlbastatus", base[:n], tail]
-        for n in BIG_COUNTS:
+        for n in BIG_COUNTS + HUGE_COUNTS:
             yield ["getlbastatus", [{"lba": 0x1000 * i, "num_blocks": 0x10 + i, "p_status": i % 3} for i in range(n)], 0]
     elif name == "reportluns":
         luns = [0, 0x0001000000000000, 0x4001000000000000, 0xC101000000000000, 0xFFFFFFFFFFFFFFFF]
@@ -612,7 +613,7 @@ def gen(part, tier):
         for n in range(2, 4):
             for ls in itertools.product((0, 1, 0x0001000000000000), repeat=n):       # (equal entries included)
                 yield ["reportluns", list(ls), 0]
-        for n in BIG_COUNTS + (255, 256, 257):          # count boundaries (two-digit indices, byte counts / entry counts around 256)
+        for n in BIG_COUNTS + (255, 256, 257) + HUGE_COUNTS + (8300,):          # count boundaries (two-digit indices, byte counts / entry counts around 256), long lists
             yield ["reportluns", [(i << 48) | (0x100 + i) for i in range(n)], 0]
             yield ["reportluns", [(i << 48) | (0x100 + i) for i in range(n)], 8]
     elif name == "rtpg":
@@ -621,6 +622,8 @@ def gen(part, tier):
         g = [{"asymmetric_access_state": 0, "target_port_group": 1, "pref": 1}, {"asymmetric_access_state": 2, "target_port_group": 0x102},
              {"asymmetric_access_state": 0xF, "target_port_group": 0xFFFF, "status_code": 2}]
         ports = [[], [1], [1, 2], [0x8001, 2, 0xFFFF]]
+        for n in HUGE_COUNTS:
+            yield ["rtpg", [[dict(g[i % 3], target_port_group=(0x200 + i) & 0xFFFF), [(i & 0x7FFF) + 1]] for i in range(n)], 0, 0, 0]
         for n in BIG_COUNTS:
             yield ["rtpg", [[g[0], [0x100 + i for i in range(n)]]], 0, 0, 0]
             yield ["rtpg", [[dict(g[i % 3], target_port_group=0x200 + i), [i + 1]] for i in range(n)], 1, 5, 0]
@@ -632,7 +635,7 @@ def gen(part, tier):
     elif name == "reportpriority":
         for vals in field_points(R.PRIORITY_DESC, max(k, 2)):
             yield ["reportpriority", [[vals, 0]], 0]
-        for n in BIG_COUNTS:
+        for n in BIG_COUNTS + HUGE_COUNTS[:1]:
             yield ["reportpriority", [[{"current_priority": i & 0xF, "rtpi": 0x300 + i}, i % len(TIDS)] for i in range(n)], 0]
         for n in range(0, 4):
             for ts in itertools.product(range(len(TIDS)), repeat=n):
@@ -641,7 +644,7 @@ def gen(part, tier):
     elif name == "res":
         for vals in field_points(R.ES_DESC, k):
             yield ["res", 1, 1, [[2, 0, 0, [vals]]], 0]
-        for n in BIG_COUNTS:
+        for n in BIG_COUNTS + HUGE_COUNTS:
             yield ["res", 0x10, n, [[2, 0, 0, [{"element_address": 0x10 + i, "full": i & 1, "access": 1, "source_storage_element_address": 0x500 + i}
                                                for i in range(n)]]], 0]
         for et, extra in ((1, {}), (2, {"access": 1}), (3, {"oir": 1, "cmc": 1, "inenab": 1, "exenab": 1, "access": 1, "impexp": 1}), (4, {"access": 1})):
@@ -672,6 +675,10 @@ def gen(part, tier):
                 yield ["prkeys", 2, list(ks), 0]
         for n in (2, 3, 17):
             yield ["prfull", 9, [[{"reservation_key": 0xB000, "r_holder": 0, "scope": 0, "type": 5, "relative_target_port_id": 1}, 0] for i in range(n)], 0]
+        for n in HUGE_COUNTS:
+            yield ["prkeys", 9, [0xA000 + i for i in range(n)], 0]
+        yield ["prfull", 9, [[{"reservation_key": 0xB000 + i, "r_holder": i & 1, "scope": 0, "type": 5, "relative_target_port_id": i}, i % len(TIDS)]
+                             for i in range(HUGE_COUNTS[0])], 0]
         for n in BIG_COUNTS:
             yield ["prkeys", 9, [0xA000 + i for i in range(n)], 0]
             yield ["prfull", 9, [[{"reservation_key": 0xB000 + i, "r_holder": i & 1, "scope": 0, "type": 5, "relative_target_port_id": i}, i % len(TIDS)]
